@@ -306,40 +306,44 @@ def stepWrite (cfg : Cfg) (st : St) (file h : Nat) (fl : Flags) (len off : Nat) 
       let (H, r) := hostPwrite st2.host file hd.fd len off
       { st := { st2 with host := H }, ret := r, calls := c0 ++ c1 ++ c2 ++ [.pwrite file len off hd.fd.append] }
 
+/-- the descriptor SETATTR works on: the handle's, unless no_open or no handle was given -/
+def setattrHnd (cfg : Cfg) (st : St) (file : Nat) (h : Option Nat) : Except Nat (Option Hnd) :=
+  if cfg.noOpen then .ok none
+  else match h with
+    | none => .ok none
+    | some hh => match st.handles hh with
+      | some hd => if hd.file = file then .ok (some hd) else .error EBADF
+      | none => .error EBADF
+
+/-- the `valid.contains(SIZE)` part of SETATTR: `ftruncate` on the handle's descriptor or on a
+    fresh `O_NONBLOCK | O_RDWR` one -/
+def doTruncate (cfg : Cfg) (st : St) (file : Nat) (hd : Option Hnd) (size : Nat) (c1 : List HostCall) : Out :=
+  match hd with
+  | some hd =>
+    let (H, r) := hostFtruncate st.host file hd.fd size
+    match r with
+    | .error e => { st := { st with host := H }, ret := .error e, calls := c1 ++ [.ftruncate file size] }
+    | .ok () => { st := { st with host := H }, ret := .ok 0, calls := c1 ++ [.ftruncate file size] }
+  | none =>
+    match openInode cfg st file { rdwr with rest := 2048 } with
+    | (st', .error e, c) => { st := st', ret := .error e, calls := c1 ++ c }
+    | (st', .ok fd, c) =>
+      let (H, r) := hostFtruncate st'.host file fd size
+      match r with
+      | .error e => { st := { st' with host := H }, ret := .error e, calls := c1 ++ c ++ [.ftruncate file size] }
+      | .ok () => { st := { st' with host := H }, ret := .ok 0, calls := c1 ++ c ++ [.ftruncate file size] }
+
 def stepSetattr (cfg : Cfg) (st : St) (file : Nat) (h : Option Nat) (setSize : Bool) (size : Nat) (setMode : Bool) : Out :=
   match st.host.size file with
   | none => { st := st, ret := .error EBADF }
   | some _ =>
-    -- the descriptor to work on: the handle's, unless no_open or no handle was given
-    let hd? : Except Nat (Option Hnd) :=
-      if cfg.noOpen then .ok none
-      else match h with
-        | none => .ok none
-        | some hh => match st.handles hh with
-          | some hd => if hd.file = file then .ok (some hd) else .error EBADF
-          | none => .error EBADF
-    match hd? with
+    match setattrHnd cfg st file h with
     | .error e => { st := st, ret := .error e }
     | .ok hd =>
       if setSize && cfg.sealed then { st := st, ret := .error EPERM }
       else
         let c1 := if setMode then [HostCall.fchmod file] else []
-        if setSize then
-          match hd with
-          | some hd =>
-            let (H, r) := hostFtruncate st.host file hd.fd size
-            match r with
-            | .error e => { st := { st with host := H }, ret := .error e, calls := c1 ++ [.ftruncate file size] }
-            | .ok () => { st := { st with host := H }, ret := .ok 0, calls := c1 ++ [.ftruncate file size] }
-          | none =>
-            -- open_inode(inode, O_NONBLOCK | O_RDWR) then ftruncate
-            match openInode cfg st file { rdwr with rest := 2048 } with
-            | (st', .error e, c) => { st := st', ret := .error e, calls := c1 ++ c }
-            | (st', .ok fd, c) =>
-              let (H, r) := hostFtruncate st'.host file fd size
-              match r with
-              | .error e => { st := { st' with host := H }, ret := .error e, calls := c1 ++ c ++ [.ftruncate file size] }
-              | .ok () => { st := { st' with host := H }, ret := .ok 0, calls := c1 ++ c ++ [.ftruncate file size] }
+        if setSize then doTruncate cfg st file hd size c1
         else { st := st, ret := .ok 0, calls := c1 }
 
 def stepFallocate (cfg : Cfg) (st : St) (file h mode off len : Nat) : Out :=
